@@ -641,7 +641,11 @@ func (h *harness) runCase(n *node, cs caseSpec, tk tokenSpec) {
 	l, err := s.line(15 * time.Second)
 	if err != nil {
 		s.close()
-		h.fatal = fmt.Sprintf("no reply to %+v: %v", cs, err)
+		if !n.d.wait(500*time.Millisecond) || n.d.Alive() {
+			h.fatal = fmt.Sprintf("no reply to %+v: %v", cs, err)
+		} else {
+			h.fatal = fmt.Sprintf("the node died: no reply to %+v", cs)
+		}
 		return
 	}
 	rc := replyClass(l)
@@ -760,6 +764,8 @@ func (h *harness) runCase(n *node, cs caseSpec, tk tokenSpec) {
 			h.im.Hist("tokdim:" + d)
 		}
 		h.im.Hist(fmt.Sprintf("token:generated:%d-deviations", len(tk.dims)))
+	} else if strings.HasPrefix(tk.name, "raw[") {
+		h.im.Hist("token:raw-structural")
 	} else {
 		h.im.Hist("token:" + tk.name)
 	}
@@ -875,6 +881,13 @@ func (h *harness) spellings(thorough bool, tokByName func(*node, string) tokenSp
 			run(t, false, false, "mesh", "valid-rs512", "")
 		}
 	}
+}
+
+func clipTok(s string) string {
+	if len(s) > 120 {
+		return s[:120] + "…"
+	}
+	return s
 }
 
 func runC15(c *Ctx) {
@@ -1013,16 +1026,32 @@ func runC15(c *Ctx) {
 	// work type NAMES: spellings around every registered type (and around "remote"), JSON and
 	// plain-text submit, this node and another node, without / with a valid / with a bad token
 	h.spellings(c.Thorough(), tokByName)
+	// raw signature strings of every structure: refused, no effect, node alive
+	for i, rs := range rawSignatures(r, "c15v", c.Thorough()) {
+		if h.fatal != "" {
+			break
+		}
+		tk := tokenSpec{tokenBase: tokenBase{"raw[" + rs.name + "]", rs.tok, true, false, "JMalformed"}}
+		kind := []string{"verify", "remote-signed"}[(i/5)%2]
+		conn := []string{"tcp", "mesh"}[i%2]
+		mk(h.V, cmds[i%len(cmds)], conn, kind, tk)
+		if !h.V.d.Alive() {
+			im.Violate(fmt.Sprintf("the node died on a %s with signature %s (%q)", cmds[i%len(cmds)], rs.name, clipTok(rs.tok)), "daemon-crashed:raw-signature", map[string]string{"signature": clipTok(rs.tok), "command": cmds[i%len(cmds)], "connection": conn})
+			break
+		}
+	}
 	// the signing side end to end, the key file at verification time, configurations that must not start
 	phase := func(name string, f func()) {
 		t0 := time.Now()
 		f()
 		im.Extra["phase_ms_"+name] = time.Since(t0).Milliseconds()
 	}
-	phase("start-signers", func() { h.startSigners(h.dir, h.privF, h.otherF, h.vListen, h.mkDaemon) })
-	phase("signed-remote", h.signedRemote)
-	phase("broken-key-file", func() { h.brokenKeyFile(tokByName) })
-	phase("bad-configs", func() { h.badConfigs(h.dir, h.mkDaemon) })
+	if h.fatal == "" && h.V.d.Alive() {
+		phase("start-signers", func() { h.startSigners(h.dir, h.privF, h.otherF, h.vListen, h.mkDaemon) })
+		phase("signed-remote", h.signedRemote)
+		phase("broken-key-file", func() { h.brokenKeyFile(tokByName) })
+		phase("bad-configs", func() { h.badConfigs(h.dir, h.mkDaemon) })
+	}
 	// the rest of the product
 	if c.Thorough() {
 		for _, n := range []*node{h.V, h.N} {
@@ -1053,6 +1082,17 @@ func runC15(c *Ctx) {
 	}
 	if h.fatal != "" {
 		im.Violate("harness could not complete a case: "+h.fatal, "harness-stuck", nil)
+	}
+	if !h.V.d.Alive() {
+		if b, err := os.ReadFile(h.V.d.LogPath()); err == nil {
+			if j := strings.Index(string(b), "panic: "); j >= 0 {
+				line := string(b)[j:]
+				if k := strings.Index(line, "\n"); k > 0 {
+					line = line[:k]
+				}
+				im.Violate("the verifying node died: "+line, "daemon-crashed", nil)
+			}
+		}
 	}
 	if !h.V.d.Alive() || !h.N.d.Alive() {
 		im.Violate("a daemon died during the run", "daemon-died", nil)
